@@ -39,10 +39,15 @@ def load_json(path, default):
         return default
 
 
-def select_tasks(pid):
+def select_tasks(pid, all_funcs=False):
     RUN.setup()
     C = RUN._STATE['contracts']
-    funcs = [q for q, c in C.VERIFY.items() if pid in c.props and c.verify and not c.trusted]
+    expected = load_json(EXPECTED, {}).get(pid, [])
+    prog = RUN._STATE['prog']
+    exp_funcs = set(l.split('/')[0] for l in expected)
+    funcs = [q for q, c in C.VERIFY.items() if c.verify and not c.trusted and (
+        all_funcs or pid in c.props
+        or (prog.short(c.target) + ('#' + c.variant if c.variant else '')) in exp_funcs)]
     lemmas = []
 
     def need(name):
